@@ -126,4 +126,9 @@ class LimitedRateLimiter(RateLimiter):
         # since its last refill gets credited at the rate of this limiter
         other.refill()
         self.add_tokens(other.bucket)
-        self.last_refill = other.last_refill
+        if other.bucket == other.limit_bps:
+            # A full bucket is not refilled and its clock stands still: the
+            # time during which it was full should not be credited here
+            self.last_refill = time.monotonic()
+        else:
+            self.last_refill = other.last_refill
